@@ -487,9 +487,13 @@ class RadialProfile(ProfileBase):
         """
         return self._data_profile[0]
 
-    @lazyproperty
+    @property
     def data_profile(self):
         """
         The raw data profile as a 1D `~numpy.ndarray`.
+
+        The values are divided by the current ``normalization_value``,
+        i.e., they follow any calls to ``normalize`` and ``unnormalize``
+        regardless of when this attribute is first read.
         """
-        return self._data_profile[1]
+        return self._data_profile[1] / self.normalization_value
